@@ -30,7 +30,7 @@ NEW_RAW = 'yui::types::ratio::Ratio::<T>::new_raw'
 
 
 def sk(t):
-    return re.sub(r'#\d+\.\d+', '', show(t))
+    return re.sub(r'#(?:i\d+:)?\d+\.\d+', '', show(t))
 
 
 def is_call(t, *suffixes):
@@ -366,7 +366,7 @@ def check_mul_cancels_first(facts, rep):
     rep.saw(b)
 
     def dk(t):
-        return re.sub(r'#\d+\.\d+', '', show(t, -1000))
+        return re.sub(r'#(?:i\d+:)?\d+\.\d+', '', show(t, -1000))
     n = 0
     probs = []
     for p in SymEx(b, max_paths=5000).run():
